@@ -764,3 +764,19 @@ Proof.
   - eapply finish_answered; eauto.
   - eapply finish_result; eauto.
 Qed.
+
+Theorem answer_provenance_full : forall ks tr s,
+  run (init ks) tr = Some s ->
+  forall c r, ph s c = Done r ->
+    match r with
+    | RStored v => In v (stored s)
+    | RPrivate k n => In (FollowerFallback c k) tr /\ 1 <= n <= origin_count s
+    | RError => 0 < faults s
+    end.
+Proof.
+  intros ks tr s H c r Hd. destruct r as [v|k n|].
+  - exact (answer_provenance ks tr s H c _ Hd).
+  - destruct (private_copies ks tr s H) as (_ & P & _).
+    destruct (P c k n Hd) as (A & _ & B). auto.
+  - exact (answer_provenance ks tr s H c _ Hd).
+Qed.
